@@ -32,6 +32,8 @@ def GridU (k : Nat) : Prop := ∃ m e : Nat, m < 2 ^ 53 ∧ k = m * 2 ^ e
 /-- the finite binary64 magnitudes (in units) -/
 def Grid (k : Nat) : Prop := F64.OnGrid k
 
+instance (k : Nat) : Decidable (Grid k) := inferInstanceAs (Decidable (F64.OnGrid k))
+
 /-- unit in the last place of the binade of `k`: `1` up to `2^53 - 1` (subnormals and the first normal
 binades, whose spacing is one unit), then `2^(bitLen k - 53)` -/
 def ulp (k : Nat) : Nat := if bitLen k ≤ 53 then 1 else 2 ^ (bitLen k - 53)
